@@ -351,6 +351,7 @@ def main(argv=None):
             'ssa_cached': cached,
             'source_digest': digest,
             'samples': samples,
+            'slowest': sorted(((round(agg[n]['time'], 2), agg[n]['instances'], n) for n in names), reverse=True)[:12],
             'failed_obligations': failed,
             'known_findings_matched': [k['obligation'] for k in known_hits],
             'engine_errors': [(prog.shorten(f), e) for (f, e, _) in engine_errors],
